@@ -259,9 +259,20 @@ class FnShape:
         self.body_close_tok = match_close(toks, j)
         self.body_open = toks[j].a          # offset of '{'
         self.body_close = toks[self.body_close_tok].a  # offset of '}'
-        # return type arrow (top level of the signature)
+        # return type arrow (top level of the signature, after the parameter list)
         self.arrow_tok = None
-        k = i
+        k = i + 2
+        angle = 0
+        while k < j:
+            t = toks[k]
+            if t.kind == 'op' and t.text == '<': angle += 1
+            elif t.kind == 'op' and t.text == '>': angle -= 1
+            elif t.kind == 'op' and t.text == '>>': angle -= 2
+            elif t.kind == 'op' and t.text == '(' and angle == 0:
+                break
+            elif t.kind == 'op' and t.text in ('(', '['):
+                k = match_close(toks, k)
+            k += 1
         while k < j:
             if toks[k].kind == 'op' and toks[k].text in ('(', '['):
                 k = match_close(toks, k)
